@@ -18,6 +18,7 @@
 From Ark Require Import Model.Base Model.Mask Model.Pool Model.World.
 From Ark Require Import Proofs.ObsSpec Proofs.ObsProofs Proofs.ObsDoc Properties.Common Model.Run.
 From Ark Require Import Proofs.ObsErase Proofs.Rel2HistO.
+From Ark Require Import Proofs.ObsLockInv Proofs.Rel2HistOL Proofs.Rel2HistOLF.
 From Coq Require Import Lia.
 
 Theorem C08_dispatch_entity_events :
@@ -136,5 +137,115 @@ Theorem C08_callback_fails_only_for :
          nth_error (w_obs s) oi = None \/ (exists (k : nat) (sk : W), remove_observer k sk = Err er s').
 Proof. exact oe_run_callback_err. Qed.
 
-Definition C08_all := (C08_observers_are_transparent_for_the_storage, C08_callback_fails_only_for, C08_dispatch_entity_events, C08_dispatch_entity_relation_events, C08_dispatch_add_events, C08_dispatch_remove_events, C08_dispatch_set_relation_custom_events, C08_reset_clears_every_event_type, C08_remove_predicate_documented).
+(** ** The observer manager over raw model histories, with callbacks (ObsLockInv / Rel2HistOL).
+    [MInv] of ObsProofs assumes well-formed observer objects ([obs_init]); the script-level model creates arbitrary ones, and
+    a registration rejected after the id was assigned breaks [MInv] ([C08_MInv_fails_for_raw_histories]). The part that
+    survives, [MInvO] (a member of an event list is an existing object of that event carrying an id; no duplicates; distinct
+    keys; the figure is the total length of the lists), holds in every reachable state and is what a callback needs. *)
+Theorem C08_manager_invariant_over_histories_with_callbacks : forall c lines,
+  Rel2Hist.cfg_ok2 c -> Forall (rel_o_line (sc_kinds c)) lines -> length lines + 4 < Nat.pow 2 31 ->
+  MInvO (Properties.Common.exec c lines).
+Proof. intros c lines Hc Hl Hb. apply (reachable_inv2OL c lines Hc Hl Hb). Qed.
+
+Theorem C08_MInv_fails_for_raw_histories : MInvO r2ol_rej /\ ~ MInv r2ol_rej.
+Proof. exact r2ol_rej_MInv_refuted. Qed.
+
+(** Unregistering a member of an observer list succeeds; Register and Unregister keep [MInvO] in both outcomes. *)
+Theorem C08_unregister_of_a_listed_observer_succeeds : forall s oi o, MInvO s -> obj s oi = Some o ->
+  In oi (olist s (o_event o)) -> exists s', remove_observer oi s = Ok tt s'.
+Proof. exact ol_rem_ok. Qed.
+
+Theorem C08_register_unregister_keep_the_manager_invariant : forall s oi, MInvO s ->
+  MInvO (state_of (add_observer oi s)) /\ MInvO (state_of (remove_observer oi s)).
+Proof. intros s oi H. split; [apply ol_add_inv|apply ol_rem_inv]; exact H. Qed.
+
+(** A callback of any kind, of an existing observer object, RETURNS when fewer than 64 lock bits are held and the entity
+    (if the pool calls it alive) has a row: same storage, same held bits, manager invariant kept. *)
+Theorem C08_callback_returns : forall held oi e s, ol_SI held s -> length held < 64 -> BatchView.bv_snap_ok s e ->
+  oi < length (w_obs s) -> exists s', run_callback oi e s = Ok tt s' /\ ol_ev held s s'.
+Proof. exact ol_run_callback. Qed.
+
+(** Hence, in a state satisfying the invariants, a structural operation on an unlocked world has exactly the outcome of the
+    erased run (no [is_err = false] hypothesis, compare [C08_observers_are_transparent_for_the_storage]) ... *)
+Theorem C08_callbacks_of_structural_operations_never_fail : forall debug s n o, Inv2OL s n -> n + 4 < Nat.pow 2 31 ->
+  oe_struct_op o = true -> is_locked s = false -> StorageBDefs.registered s (Rel2Hist.rel_op_ids o) ->
+  step_op debug o (oe_E s) = oe_rmap (step_op debug o s) /\ r2ol_LM (state_of (step_op debug o s)).
+Proof. exact r2ol_struct_exact. Qed.
+
+Theorem C08_step_commutes_with_erasure : forall debug wd s n line o, Inv2OL s n -> n + 4 < Nat.pow 2 31 ->
+  decode_op line = Some o -> oe_struct_op o = true -> is_locked s = false ->
+  (forall c, In c (Rel2Hist.rel_op_ids o) -> c < length (w_reg s)) ->
+  oe_E (fst (step debug wd s line)) = fst (step debug wd (oe_E s) line).
+Proof. exact r2ol_step_erasure. Qed.
+
+(** ... and Emit has exactly four outcomes. *)
+Theorem C08_emit_outcomes : forall debug s n evt h comps, Inv2O s n -> r2ol_LM s ->
+  (exists er, r2ol_emit_args evt h comps s = Err er s /\ step_op debug (OEmit evt h comps) s = Err er s) \/
+  (r2ol_emit_args evt h comps s = Ok None s /\ step_op debug (OEmit evt h comps) s = Ok [] s) \/
+  (exists a, r2ol_emit_args evt h comps s = Ok (Some a) s /\ r2ol_open_count s < 64 /\
+     exists s', step_op debug (OEmit evt h comps) s = Ok [] s' /\ r2ol_LM s' /\ StorageA.storage_same s s') \/
+  (exists a, r2ol_emit_args evt h comps s = Ok (Some a) s /\ r2ol_open_count s = 64 /\
+     (step_op debug (OEmit evt h comps) s = Ok [] s \/ step_op debug (OEmit evt h comps) s = Err EBits s)).
+Proof. exact r2ol_emit_cases. Qed.
+
+(** The observer figure of Stats is the number of observer objects that are in the list of their event (NOT the number of
+    objects carrying an id: [StatsProofs.stats_observers_registered_refuted]). *)
+Theorem C08_observer_figure_is_the_number_of_listed_observers : forall c lines,
+  Rel2Hist.cfg_ok2 c -> Forall (rel_o_line (sc_kinds c)) lines -> length lines + 4 < Nat.pow 2 31 ->
+  let s := Properties.Common.exec c lines in
+  nth 5 (stats_vec s) 0%Z = Zn (w_ototal s) /\ w_ototal s = length (r2ol_listed s) /\
+  Permutation.Permutation (flat_map snd (w_olists s)) (r2ol_listed s) /\
+  (forall oi, In oi (r2ol_listed s) -> In oi (StatsProofs.sp_registered s)).
+Proof. exact reachable_stats_observers_O. Qed.
+
+(** ** The aggregates over raw model histories (Rel2HistOLF): everything of [MInv0] except [mi_idl] and [mi_rel] holds in every
+    reachable state - without any side condition on the lines -, so the aggregate early-out is sound there: for the REAL
+    callbacks (of any kind) a dispatch does not depend on [earlyOut]; with passive callbacks it is the specification. *)
+Theorem C08_manager_and_aggregate_invariant_over_raw_histories : forall c lines,
+  Forall (rel_o_line (sc_kinds c)) lines -> MInvOF (Properties.Common.exec c lines).
+Proof. exact reachable_MInvOF. Qed.
+
+Theorem C08_MInv_is_MInvOF_plus_the_two_failing_clauses : forall s, MInvOF s ->
+  (forall oi o, obj s oi = Some o -> o_id o <> None -> In oi (olist s (o_event o))) ->
+  (forall oi o, obj s oi = Some o -> is_relation_event (o_event o) = true -> forall c, In c (o_for o) -> is_rel_comp s c = true) ->
+  MInv s.
+Proof. exact r2olf_to_MInv. Qed.
+
+Theorem C08_early_out_unobservable_entity_events : forall c lines, Forall (rel_o_line (sc_kinds c)) lines ->
+  forall evt e m eo, let s := Properties.Common.exec c lines in
+  fire evt (early_with m) (p_with m) e eo s = fire evt (early_with m) (p_with m) e false s.
+Proof. exact reachable_early_out_unobservable_entity. Qed.
+
+Theorem C08_early_out_unobservable_entity_relation_events : forall c lines, Forall (rel_o_line (sc_kinds c)) lines ->
+  forall evt e m eo, is_entity_event evt = false -> let s := Properties.Common.exec c lines in
+  fire evt (fun g => (early_comps m g || early_with m g)%bool) (p_entity_rel m) e eo s =
+  fire evt (fun g => (early_comps m g || early_with m g)%bool) (p_entity_rel m) e false s.
+Proof. exact reachable_early_out_unobservable_entity_rel. Qed.
+
+Theorem C08_early_out_unobservable_add_events : forall c lines, Forall (rel_o_line (sc_kinds c)) lines ->
+  forall evt e old new eo, is_entity_event evt = false -> let s := Properties.Common.exec c lines in
+  fire_add evt e old new eo s = fire_add evt e old new false s.
+Proof. exact reachable_early_out_unobservable_add. Qed.
+
+Theorem C08_early_out_unobservable_remove_events : forall c lines, Forall (rel_o_line (sc_kinds c)) lines ->
+  forall evt e old new eo, is_entity_event evt = false -> let s := Properties.Common.exec c lines in
+  fire_remove evt e old new eo s = fire_remove evt e old new false s.
+Proof. exact reachable_early_out_unobservable_remove. Qed.
+
+Theorem C08_early_out_unobservable_set_relation_custom_events : forall c lines, Forall (rel_o_line (sc_kinds c)) lines ->
+  forall evt e cm em eo, is_entity_event evt = false -> let s := Properties.Common.exec c lines in
+  fire_set evt e cm em eo s = fire_set evt e cm em false s.
+Proof. exact reachable_early_out_unobservable_set. Qed.
+
+Theorem C08_has_obs_shortcut_exact : forall c lines, Forall (rel_o_line (sc_kinds c)) lines ->
+  forall evt, let s := Properties.Common.exec c lines in has_obs s evt = negb (is_nil (olist s evt)).
+Proof. exact reachable_has_obs_exact. Qed.
+
+Theorem C08_dispatch_exact_over_raw_histories : forall c lines cb evt e cm em eo, Forall (rel_o_line (sc_kinds c)) lines ->
+  cb_stable cb -> is_entity_event evt = false ->
+  let s := Properties.Common.exec c lines in
+  fire_with cb evt (early_set cm em) (p_set cm em) e eo s = dispatch_spec cb s evt (p_set cm em) e.
+Proof. exact reachable_dispatch_exact_set. Qed.
+
+Definition C08_all := (C08_manager_and_aggregate_invariant_over_raw_histories, C08_MInv_is_MInvOF_plus_the_two_failing_clauses, C08_early_out_unobservable_entity_events, C08_early_out_unobservable_entity_relation_events, C08_early_out_unobservable_add_events, C08_early_out_unobservable_remove_events, C08_early_out_unobservable_set_relation_custom_events, C08_has_obs_shortcut_exact, C08_dispatch_exact_over_raw_histories, C08_manager_invariant_over_histories_with_callbacks, C08_MInv_fails_for_raw_histories, C08_unregister_of_a_listed_observer_succeeds, C08_register_unregister_keep_the_manager_invariant, C08_callback_returns, C08_callbacks_of_structural_operations_never_fail, C08_step_commutes_with_erasure, C08_emit_outcomes, C08_observer_figure_is_the_number_of_listed_observers, C08_observers_are_transparent_for_the_storage, C08_callback_fails_only_for, C08_dispatch_entity_events, C08_dispatch_entity_relation_events, C08_dispatch_add_events, C08_dispatch_remove_events, C08_dispatch_set_relation_custom_events, C08_reset_clears_every_event_type, C08_remove_predicate_documented).
 Print Assumptions C08_all.
